@@ -639,9 +639,32 @@ def _c01(ctx, ad, cfg, env, runner, rng, drv, mult):
                              {"env": cfg.cid, "cls": cls, "phase": phase, "field": k}, {"cls": cls, "field": k, "phase": phase})
         except TypeError as ex:
             ctx.fail(ad.name, "structure", f"{cfg.cid} {phase}: observation structure does not match the spec: {ex}", {"env": cfg.cid, "phase": phase}, {"cls": cls})
+    fan_left = budget(ctx, 6, 40) * mult
     for r in rollouts(ad, env, runner, rng, budget(ctx, 3, 10) * mult):
         if r.get("post_terminal"):
             continue
+        # every action (capped) from some of the visited states, not only the one the policy chose: border cells, tunnel mouths
+        # and last free slots are one particular action away from where play passes
+        if not r["reset"] and fan_left > 0 and int(r["ts_prev"].step_type) != 2 and rng.random() < 0.4:
+            fan_left -= 1
+            fa = ad.fan_actions(env, r["state"], r["ts_prev"], rng, cap=64)
+            _, tss = runner.fan(r["state"], fa)
+            for i in range(len(fa)):
+                tsi = tree_index(tss, i)
+                ctx.evaluations += 1
+                b = bad_leaf(ospec, tsi.observation)
+                if b is not None:
+                    ctx.fail(ad.name, "obs_out_of_spec", f"{cfg.cid}: step observation field {b[0]!r} rejected by observation_spec: {b[1]}",
+                             {"env": cfg.cid, "cls": cls, "reset_seed": r.get("seed"), "t": r.get("t", -1), "phase": "step", "policy": r.get("policy"),
+                              "fan_action": ad.ser_action(env, fa[i])},
+                             {"cls": cls, "field": b[0].split(".")[-1], "value": b[2], "phase": "step"})
+                for nm, sp, v in (("reward", rspec, tsi.reward), ("discount", dspec, tsi.discount)):
+                    try:
+                        sp.validate(v)
+                    except (ValueError, TypeError) as ex:
+                        ctx.fail(ad.name, f"{nm}_out_of_spec", f"{cfg.cid}: step {nm} rejected by {nm}_spec: {str(ex)[:160]}",
+                                 {"env": cfg.cid, "cls": cls, "reset_seed": r.get("seed"), "t": r.get("t", -1), "phase": "step"}, {"cls": cls, "phase": "step"})
+            ctx.count(f"{ad.name}.c01_fan_states")
         ts = r["ts"]
         phase = "reset" if r["reset"] else "step"
         ctx.evaluations += 1
